@@ -276,6 +276,8 @@ pub struct OpRec {
     /// result of is_closed() sampled by the actor right before invoking (get ops)
     pub closed_at_invoke: bool,
     pub fault_used: bool,
+    /// zero-wait gets: smallest lower bound of free slots seen over the call's interval
+    pub free_lb_min: Option<usize>,
     /// idle queue at the start of the step in which this op last left a lock region
     pub last_lock_idle: Option<Vec<u32>>,
     /// Pending polls of the actor when the op was invoked / when it made its first call
@@ -485,6 +487,7 @@ impl MWorld {
             cancelled_by_controller: false,
             closed_at_invoke: false,
             fault_used: false,
+            free_lb_min: None,
             last_lock_idle: None,
             pend_base: if actor == CONTROLLER { 0 } else { engine::pending_count(actor) },
             pend_first_call: None,
@@ -1290,6 +1293,8 @@ pub fn run_op(actor: usize, idx: usize, op: Op, pool: &mut Option<SPool>) {
             let r = guarded(|| {
                 p.retain(|obj, m| {
                     let id = obj.id;
+                    // a user predicate takes time: let other threads run while retain() is here
+                    engine::point("harness.pred");
                     let keep = st.eval(id);
                     with_w(|w| {
                         let step = current_step();
